@@ -2,6 +2,7 @@ import EinxModel.Proofs.Compile
 import EinxModel.Proofs.CompileCorrect
 import EinxModel.Proofs.CompileOrder
 import EinxModel.Proofs.CompileClosed
+import EinxModel.Proofs.FuseCompile
 import EinxModel.Extracted.Compile
 /-!
 C04 — generated source is a faithful, self-contained compilation of the traced graph.
@@ -17,7 +18,13 @@ is the one the driver executes (kind `compile`); `Extracted.compile*` is regener
 * `compile_correct_wf`            – universal: for every `Graph.WF` graph (decidable) on which `compile` succeeds, executing the
                                     emitted statements = `evalGraph` (event trace and result); nested graphs and in-place nodes
                                     included; no per-graph premise.  `_wf_fused`: lifted through the generator's name groups under
-                                    `fuseSafe` (the one premise that is still checked per graph).
+                                    `fuseSafe`.
+* `fuse_text_safe`, `fuse_text_sound` – the same in text order, block by block (`fuseSafe` and `entrySafe` of every block's text:
+                                    the driver's verdict `fuse_safe`), and its consequence for the execution of a block.
+* `fuse_produces_safe`            – the name groups computed by the generator's `fuse` loop (with both filters, as extracted) are
+                                    `fuseSafe` on the emitted program, for every `Graph.WF` graph on which `compile` succeeds;
+                                    `compile_correct_wf_fused_total` / `compile_correct_extracted`: the fused statement without
+                                    per-graph premise.  Helper lemmas: `Proofs/Fuse{Safe,Loop,All,Emit,Scope,Text,Compile}.lean`.
 * `compile_correct`               – the simulation for every context and traversal, under `matched` and `liveIn program = []`
                                     (also the terms of all cached values); `_flat`: no premise without nested graphs; `_compiled`:
                                     for `compile`; `_fused`: through any `fuseSafe` renaming (`fuse_sound`).
@@ -464,6 +471,81 @@ theorem compile_correct_wf_fused (cfg : UCfg) (fc : FCfg) (g : Graph) (comp : Co
       r.ret = (execBlock { env := env' } (comp.st.program.map (Stmt.rename (fun v => comp.grp[v]?.getD v)))).ret :=
   compile_correct_compiled_fused cfg fc g comp h (compile_closed cfg fc g comp hwf h) hsafe env'
 
+/-! ### The `fuse` loop produces a safe renaming -/
+
+/-- **fuse_produces_safe**: for *every* graph that satisfies `Graph.WF` and for all usage switches, if `compile` succeeds and the
+`fuse` loop has its two filters (an input that is used in a later statement, or in another block, is not a candidate:
+`extracted_fuse_filters`), then the name groups the loop computed (`comp.grp`, the model of `variableid_to_group` after the loop over
+`code.blocks`) satisfy the interference condition `fuseSafe` on the emitted statements (emission order): whenever a statement
+writes the shared name of its output variable, no other variable with that name is live afterwards.
+
+Proof (`Proofs/Fuse*.lean`): the emitted program defines every variable at most once (`emitAll_sd`; the `def` of a nested graph
+is emitted once because the traversal has no repetitions, `visitOrder_nodup`), reads no variable before its definition
+(`compile_closed`), and all its statements lie in blocks the loop visits (`goodBlk_lt`: the scope map only returns existing
+scopes).  Along the loop the invariant `FInv` holds: the members of a name group are linearly ordered by `Before` (defined earlier,
+and without reader after the definition of the later one); a merge `fuse(v, o)` happens at the statement that defines `o`, is the
+last reader of `v` (filters), the group of `o` is still `{o}` and `v` is the last member of its group (`FInv.merge`). -/
+theorem fuse_produces_safe (cfg : UCfg) (fc : FCfg) (g : Graph) (comp : Compiled) (hwf : g.WF = true)
+    (hfilters : fc.checkLater = true ∧ fc.checkBlock = true) (h : compile cfg fc g = .ok comp) :
+    fuseSafe (fun v => comp.grp[v]?.getD v) comp.st.program = true := by
+  obtain ⟨hg, hnd, hblk, _⟩ := compile_fuse_facts cfg fc g comp hwf h
+  rw [hg]
+  exact fuseAll_safe fc hfilters.1 hfilters.2 comp.st comp.nblocks hnd (compile_closed cfg fc g comp hwf h) hblk
+
+/-- `fuse_produces_safe` for the switches of the `fuse` loop as they are read from the source on this run. -/
+theorem fuse_produces_safe_extracted (cfg : UCfg) (g : Graph) (comp : Compiled) (hwf : g.WF = true)
+    (h : compile cfg Einx.Extracted.compileFCfg g = .ok comp) :
+    fuseSafe (fun v => comp.grp[v]?.getD v) comp.st.program = true :=
+  fuse_produces_safe cfg _ g comp hwf extracted_fuse_filters h
+
+/-- **compile_correct_wf_fused_total**: `compile_correct_wf_fused` without per-graph premise.  For every `Graph.WF` graph and all
+usage switches, if `compile` (with a `fuse` loop that has both filters) succeeds, then the emitted statements *with the names the
+generator assigned* (variables renamed to the representative of their name group), executed from any entry environment, have the
+event trace and the result of the node-by-node reference evaluation of the graph. -/
+theorem compile_correct_wf_fused_total (cfg : UCfg) (fc : FCfg) (g : Graph) (comp : Compiled) (hwf : g.WF = true)
+    (hfilters : fc.checkLater = true ∧ fc.checkBlock = true) (h : compile cfg fc g = .ok comp) (env' : Env) :
+    ∃ r, evalGraph g cfg.unaryParens comp.order = .ok r ∧
+      r.trace = (execBlock { env := env' } (comp.st.program.map (Stmt.rename (fun v => comp.grp[v]?.getD v)))).trace ∧
+      r.ret = (execBlock { env := env' } (comp.st.program.map (Stmt.rename (fun v => comp.grp[v]?.getD v)))).ret :=
+  compile_correct_wf_fused cfg fc g comp hwf h (fuse_produces_safe cfg fc g comp hwf hfilters h) env'
+
+/-- The same for the generator as extracted from the source on this run (all switches of `usage.py`, `define` and the `fuse` loop). -/
+theorem compile_correct_extracted (g : Graph) (comp : Compiled) (hwf : g.WF = true)
+    (h : compile Einx.Extracted.compileUCfg Einx.Extracted.compileFCfg g = .ok comp) (env' : Env) :
+    ∃ r, evalGraph g Einx.Extracted.compileUCfg.unaryParens comp.order = .ok r ∧
+      r.trace = (execBlock { env := env' } (comp.st.program.map (Stmt.rename (fun v => comp.grp[v]?.getD v)))).trace ∧
+      r.ret = (execBlock { env := env' } (comp.st.program.map (Stmt.rename (fun v => comp.grp[v]?.getD v)))).ret :=
+  compile_correct_wf_fused_total _ _ g comp hwf extracted_fuse_filters h env'
+
+/-- **fuse_text_safe**: the interference condition in *text order*, block by block — the verdict `fuse_safe` the driver decides per
+graph, as a theorem.  For every `Graph.WF` graph, all usage switches, both filters of the `fuse` loop, and every block `b`: on the text
+of the block (comments and hoisted imports first, then the statements of the block in emission order) the generator's name groups
+satisfy `fuseSafe` (a statement that writes a shared name is not followed by a read of another variable of that name before its
+definition) and `entrySafe` (the variables the block reads from outside — parameters, variables of enclosing blocks, function
+variables — have pairwise distinct names). -/
+theorem fuse_text_safe (cfg : UCfg) (fc : FCfg) (g : Graph) (comp : Compiled) (hwf : g.WF = true)
+    (hfilters : fc.checkLater = true ∧ fc.checkBlock = true) (h : compile cfg fc g = .ok comp) (b : Nat) :
+    fuseSafe (fun v => comp.grp[v]?.getD v) ((comp.st.block b).map (·.stmt)) = true ∧
+    entrySafe (fun v => comp.grp[v]?.getD v) ((comp.st.block b).map (·.stmt)) = true := by
+  obtain ⟨hg, hnd, hblk, hinfo⟩ := compile_fuse_facts cfg fc g comp hwf h
+  rw [hg]
+  exact fuseAll_text_safe fc hfilters.1 hfilters.2 comp.st comp.nblocks hnd (compile_closed cfg fc g comp hwf h) hblk hinfo b
+
+/-- **fuse_text_sound**: consequently (`fuse_sound`, `fuse_entry`) the text of every block, with the names the generator assigned,
+behaves like the text with one name per variable: for every state `x` on entry of the block there is an entry environment for the
+renamed block (the values of the variables that are live on entry, under their shared names) from which it produces the same
+event trace and the same result. -/
+theorem fuse_text_sound (cfg : UCfg) (fc : FCfg) (g : Graph) (comp : Compiled) (hwf : g.WF = true)
+    (hfilters : fc.checkLater = true ∧ fc.checkBlock = true) (h : compile cfg fc g = .ok comp) (b : Nat) (x : XState) :
+    ∃ env' : Env,
+      (execBlock { x with env := env' } (((comp.st.block b).map (·.stmt)).map (Stmt.rename (fun v => comp.grp[v]?.getD v)))).trace
+        = (execBlock x ((comp.st.block b).map (·.stmt))).trace ∧
+      (execBlock { x with env := env' } (((comp.st.block b).map (·.stmt)).map (Stmt.rename (fun v => comp.grp[v]?.getD v)))).ret
+        = (execBlock x ((comp.st.block b).map (·.stmt))).ret := by
+  obtain ⟨hs, he⟩ := fuse_text_safe cfg fc g comp hwf hfilters h b
+  obtain ⟨env', henv⟩ := fuse_entry (fun v => comp.grp[v]?.getD v) ((comp.st.block b).map (·.stmt)) x.env he
+  exact ⟨env', fuse_sound _ _ x { x with env := env' } hs henv rfl rfl⟩
+
 /-! ### Non-vacuity -/
 
 /-- `a = f(a); a = g(a); return a`: three variables share one name, the block is safe, and the theorem applies. -/
@@ -530,5 +612,60 @@ traversal mentions no open graph. -/
 example : d6Graph.WF = true ∧ (match compile fixedUCfg ⟨true, true, true⟩ d6Graph with
     | .ok c => some (noSelfRef d6Graph c.order [], pendAfter c.order [], c.st.program.length)
     | .error _ => none) = some (true, [], 4) := by decide
+
+/-! Non-vacuity of `fuse_produces_safe`: the loop merges variables, across a parameter, and the filters are needed. -/
+
+/-- `import numpy as np; a = np.zeros(3); a = np.exp(a)`: the result of `zeros` is dead when `exp` is called. -/
+def chainGraph : Graph :=
+  { apps := [.import_ "numpy" none (some "np") 0, .getattr (.var 0) "zeros" 1, .call (.var 1) [.lit "3"] [] [] 2,
+             .getattr (.var 0) "exp" 3, .call (.var 3) [.var 2] [] [] 4],
+    origin := [some 0, some 1, some 2, some 3, some 4], graphs := [], top := .var 4 }
+
+/-- `a = np.zeros(3); b = np.exp(a); c = np.add(a, b)`: `a` is still needed after `exp`. -/
+def liveGraph : Graph :=
+  { apps := [.import_ "numpy" none (some "np") 0, .getattr (.var 0) "zeros" 1, .call (.var 1) [.lit "3"] [] [] 2,
+             .getattr (.var 0) "exp" 3, .call (.var 3) [.var 2] [] [] 4,
+             .getattr (.var 0) "add" 5, .call (.var 5) [.var 2, .var 4] [] [] 6],
+    origin := [some 0, some 1, some 2, some 3, some 4, some 5, some 6], graphs := [], top := .var 6 }
+
+/-- `def op(a): a = np.exp(a); a = np.exp(a); return a`: a parameter and two results share one name. -/
+def nestGraph : Graph :=
+  { apps := [.import_ "numpy" none (some "np") 0, .getattr (.var 0) "exp" 1, .call (.var 1) [.var 5] [] [] 2,
+             .call (.var 1) [.var 2] [] [] 3],
+    origin := [some 0, some 1, some 2, some 3, none, none],
+    graphs := [{ inputs := [5], output := .var 3, name := some "op" }], top := .gref 0 }
+
+/-- Text, name groups and `fuseSafe` verdict of a compilation. -/
+def fuseSummary (fc : FCfg) (g : Graph) : Option (String × List Nat × Bool) :=
+  match compile { fixedUCfg with attrForceInline := true } fc g with
+  | .ok c => some (c.text, c.grp, fuseSafe (fun v => c.grp[v]?.getD v) c.st.program)
+  | .error _ => none
+
+/-- The hypotheses of `fuse_produces_safe` are met by compilations in which the loop does merge variables. -/
+example : chainGraph.WF = true ∧ fuseSummary ⟨true, true, true⟩ chainGraph =
+    some ("import numpy as np\na = np.zeros(3)\na = np.exp(a)", [0, 1, 1], true) := by decide
+
+example : nestGraph.WF = true ∧ fuseSummary ⟨true, true, true⟩ nestGraph =
+    some ("import numpy as np\ndef op(a):\n    a = np.exp(a)\n    a = np.exp(a)\n    return a", [0, 1, 2, 1, 1], true) := by decide
+
+/-- The hypothesis on the filters cannot be dropped: without the later-use filter the loop merges `a` into the result of `exp`
+although `a` is read afterwards (`a = np.exp(a); b = np.add(a, a)`), and the groups are not `fuseSafe`. -/
+example : liveGraph.WF = true ∧
+    fuseSummary ⟨true, true, true⟩ liveGraph =
+      some ("import numpy as np\na = np.zeros(3)\nb = np.exp(a)\nc = np.add(a, b)", [0, 1, 2, 3], true) ∧
+    fuseSummary ⟨false, true, true⟩ liveGraph =
+      some ("import numpy as np\na = np.zeros(3)\na = np.exp(a)\nb = np.add(a, a)", [0, 1, 1, 3], false) := by decide
+
+/-- `fuse_text_safe` on the nested example: the inner block (`a = np.exp(a); a = np.exp(a); return a` with the parameter `a` live on
+entry) and the root block are safe in text order; without the later-use filter the root block of `liveGraph` is not. -/
+def textSummary (fc : FCfg) (g : Graph) : Option (List (Bool × Bool)) :=
+  match compile { fixedUCfg with attrForceInline := true } fc g with
+  | .ok c => some ((List.range c.nblocks).map (fun b =>
+      (fuseSafe (fun v => c.grp[v]?.getD v) ((c.st.block b).map (·.stmt)), entrySafe (fun v => c.grp[v]?.getD v) ((c.st.block b).map (·.stmt)))))
+  | .error _ => none
+
+example : textSummary ⟨true, true, true⟩ nestGraph = some [(true, true), (true, true)] ∧
+    textSummary ⟨true, true, true⟩ liveGraph = some [(true, true)] ∧
+    textSummary ⟨false, true, true⟩ liveGraph = some [(false, true)] := by decide
 
 end Einx.Compile
